@@ -5,6 +5,7 @@ definitions the theorems in `PeroVerif/Props` talk about (no `implemented_by`).
 -/
 import PeroVerif.Drv.Common
 import PeroVerif.Drv.C04
+import PeroVerif.Drv.C05
 import PeroVerif.Drv.C13
 import PeroVerif.Drv.C15
 open Lean Drv
@@ -12,6 +13,7 @@ open Lean Drv
 def dispatch (p : String) : Option Handler :=
   match p with
   | "C04" => some Drv.C04.handle
+  | "C05" => some Drv.C05.handle
   | "C13" => some Drv.C13.handle
   | "C15" => some Drv.C15.handle
   | _ => none
